@@ -747,6 +747,32 @@ pub fn run(rng: &mut Rng, n: usize, rep: &mut Report) {
                 }
             }
         }
+        // ---- directed: the standard (mint-token) instructions on a bank that is re-tagged as venue-backed (Kamino / Drift /
+        //      Solend: its shares would be venue units): every one of them must be refused outright, on clones
+        for (u, us) in s.users.iter().enumerate() {
+            let b = rng.below(s.banks.len() as u64) as usize;
+            let h = s.banks[b];
+            let tag = *rng.pick(&[marginfi_type_crate::constants::ASSET_TAG_KAMINO, marginfi_type_crate::constants::ASSET_TAG_DRIFT, marginfi_type_crate::constants::ASSET_TAG_SOLEND]);
+            let mut w2 = s.w.clone();
+            let mut bk = w2.bank(&h.bank);
+            bk.config.asset_tag = tag;
+            w2.set_bank(&h.bank, &bk);
+            let amt = 1 + rng.below(1_000_000);
+            for act in [Act::Deposit { u, b, amt, upto: false }, Act::Withdraw { u, b, amt, all: false }, Act::Borrow { u, b, amt }, Act::Repay { u, b, amt, all: false }] {
+                let Some(ixn) = s.instruction(&act) else { continue };
+                let before = w2.accounts.clone();
+                let r = w2.exec(&ixn);
+                rep.bump(if r.is_ok() { "venue_bank_std_ix_accepted" } else { "venue_bank_std_ix_refused" });
+                if r.is_ok() {
+                    rep.fail(format!("C03 the standard instruction {:?} was ACCEPTED on a bank tagged as venue-backed (asset tag {}): mint tokens were booked one for one against shares that stand for the venue's collateral units", act, tag));
+                    rep.fail(format!("C01 the standard instruction {:?} was ACCEPTED on a pass-through bank of a third-party venue (asset tag {})", act, tag));
+                    w2.accounts = before;
+                } else if w2.accounts != before {
+                    rep.fail(format!("C08 a refused {:?} changed the account store", act));
+                }
+            }
+            let _ = us;
+        }
         // ---- directed: a purge in a sunset bank of a lender position that carries a debt residue around the 0.0001-unit
         //      tolerance while the debt share value is above 1 (on a clone; the residue is put there by state edit, as the
         //      dust a DepositOnly deposit tolerates and interest then grows)
